@@ -24,8 +24,9 @@ func main() {
 		fs := flag.NewFlagSet(cmd, flag.ExitOnError)
 		in := fs.String("in", "", "vectors ndjson")
 		out := fs.String("out", "", "cases ndjson")
+		subj := fs.String("subjects", "", "subjects ndjson (terms)")
 		fs.Parse(args)
-		err = cmdRewrite(*in, *out)
+		err = cmdRewrite(*in, *out, *subj)
 	case "textvec":
 		fs := flag.NewFlagSet(cmd, flag.ExitOnError)
 		in := fs.String("in", "", "text vectors json")
